@@ -5,10 +5,15 @@ attribute assignments that arm/disarm a failing printer) over values that
 share objects.  Values contain objects of harness types whose printers,
 registered with hy.repr-register, (a) raise after printing k children,
 (b) call hy.repr on other values/models/temporaries, catching failures or not,
-(c) print themselves.  Every successful call's text is compared with the text
-a fresh interpreter gives for the same value (table computed by
-hv.gen_values.FreshServer: one pristine forked interpreter per entry; a sample
-is cross-checked against brand-new interpreter processes).
+(c) print themselves.  Every call's outcome is compared with what a fresh
+interpreter gives for the same value.  Process creation costs 0.3-3 s on this
+machine, so that is done in two stages: a *filter* -- the same object printed by
+a pristine instance of the printer module (its code object executed into a
+new namespace, harness printers registered anew, `hy.repr` pointed at it for
+the duration) -- and a *verdict*: every difference the filter reports, and a
+sample of the entries it passes, is put to a brand-new interpreter process
+(exec) that rebuilds the value from the IR and makes that one call only.  A
+VIOLATION is only ever raised from the brand-new process's answer.
 
 fault_enumeration: for every generated spine structure (failing boxes nested
 D deep, n_d children at level d) every fault plan (k, d) -- box at level d
@@ -31,20 +36,20 @@ RULE = ("a case is a history of 3-30 hy.repr calls over values sharing objects: 
         "exception followed later by >=1 successful print of a model and >=1 of a builtin container; "
         "distinct by rendered history.")
 FLOOR = {"quick": 1000, "thorough": 1000}
-BUDGET = {"quick": 32, "thorough": 420}
+BUDGET = {"quick": 22, "thorough": 420}
 CASE_TIMEOUT = 30
 NEEDS_EVENTS = True
 ANCHORS = ["hy.core.hy_repr:hy_repr"]
 ASSUMPTIONS = [
-    "a forked copy of an interpreter that has only imported hy (and registered the harness printers) is a fresh "
-    "interpreter; a sample of table entries is cross-checked against brand-new interpreter processes",
+    "filter: a pristine instance of the hy.core.hy_repr module prints like a fresh interpreter; every difference it "
+    "reports and a sample of the entries it passes are decided by a brand-new interpreter process (exec)",
     "only exceptions raised by registered printers are crash points (no asynchronous exceptions)",
     "PYTHONHASHSEED is the same in the history process and the fresh processes; NaN and harness objects "
     "(id-based hashes) are kept out of sets so that iteration order is process-independent",
 ]
 MANIFEST = {
     "text": "Histories of hy.repr calls over values sharing objects, with registered harness printers that raise after k children at nesting level d (every (k,d) of each generated structure is enumerated), call hy.repr recursively on children, models and temporaries, catch nested failures, or print themselves; after every call the outcome is compared with what a fresh interpreter process gives for the same value (text equality for successes; success/failure must agree). Secondary: _quoting false and _seen empty at every outermost return/raise (skipped if the names are gone). fault_enumeration over printer-raised exceptions only.",
-    "note": "Trusted: fork of a just-imported interpreter == fresh interpreter (cross-checked on a sample against exec'd processes); the value builder. Bounds: histories <= 30 calls, spine depth <= 4 (5 thorough), <= 4 children per box. Crash points are exceptions raised by printers, not asynchronous exceptions between arbitrary lines of hy-repr.",
+    "note": "Trusted: the pristine-module filter selects what is put to brand-new interpreter processes (all reported differences + a sample of passes; verdicts come only from those processes); the value builder. Bounds: histories <= 30 calls, spine depth <= 4 (5 thorough), <= 4 children per box. Crash points are exceptions raised by printers, not asynchronous exceptions between arbitrary lines of hy-repr.",
     "technique": "runtime monitoring: call histories with fault injection in registered printers, differential against fresh interpreter processes; quiescent-point state invariants as secondary monitor",
 }
 TOOL = 3
@@ -147,26 +152,17 @@ def _setup():
     hy.repr_register(SelfBox, _print_self)
     hy.repr_register(SelfBoxP, _print_self, placeholder="<SELF>")
     hy.repr_register(TempBox, _print_temp)
-    _state.update(hy=hy, HR=HR, counts=collections.Counter(), server=None, mon=None, ncases=0)
+    _state.update(hy=hy, HR=HR, counts=collections.Counter(), mon=None, ncases=0)
     return _state
-
-
-def fresh_preload():
-    _setup()
 
 
 def setup_worker(tier, seed):
     st = _setup()
     st["mon"] = G.EntryMonitor("hy.core.hy_repr", "hy_repr", TOOL, "hv-c28")
-    st["server"] = G.FreshServer("checks.c28")
-    st["server"].start()
 
 
 def finish_worker():
     st = _setup()
-    if st["server"] is not None:
-        st["counts"]["fresh_forks"] = st["server"].forks
-        st["server"].stop()
     out = dict(st["counts"])
     out["secondary_monitor_skipped"] = bool(st.get("secondary_skipped"))
     return {"c28": out}
@@ -174,10 +170,12 @@ def finish_worker():
 
 def gate(tot, classes, extra, tier):
     c = extra.get("c28", {})
-    if not c.get("genuine_fresh_checked"):
-        return "no-table-entry-was-cross-checked-against-a-brand-new-process"
-    if c.get("genuine_fresh_mismatch"):
-        return f"fork-server-disagrees-with-brand-new-process-{c['genuine_fresh_mismatch']}x"
+    if c.get("reference_unavailable"):
+        return "pristine-printer-instance-could-not-be-made"
+    if not c.get("fresh_process_sampled"):
+        return "no-entry-was-cross-checked-against-a-brand-new-process"
+    if c.get("filter_disagrees_with_fresh_process"):
+        return f"pristine-instance-filter-disagrees-with-brand-new-process-{c['filter_disagrees_with_fresh_process']}x"
     if not classes.get("plan:raised"):
         return "no-fault-plan-made-a-printer-raise"
     return None
@@ -265,15 +263,19 @@ WRAPS = ["direct", "list", "tuple", "dict", "deque", "odict", "mList", "mExpress
          "mTuple", "mSet", "catchbox", "tempbox", "selfbox", "chainmap", "counter", "slice"]
 
 
-def wrap(g, rng, inner, kind):
-    """Put `inner` (IR) into a wrapper of the given kind, next to small values."""
+def wrap(g, rng, make_inner, kind):
+    """Put the IR made by make_inner() into a wrapper of the given kind, next to
+    small values.  (Nodes are generated in build order: a node may share only
+    objects built before it.)  Returns (wrapper, inner)."""
     def small():
         return g.node(g.max_depth - 1, False, "imm")
     if kind == "direct":
-        return inner
-    sib = [small() for _ in range(rng.randint(0, 2))]
-    pos = rng.randint(0, len(sib))
-    seq = sib[:pos] + [inner] + sib[pos:]
+        inner = make_inner()
+        return inner, inner
+    before = [small() for _ in range(rng.randint(0, 1))]
+    inner = make_inner()
+    after = [small() for _ in range(rng.randint(0, 1))]
+    seq = before + [inner] + after
     if kind in ("list", "tuple", "deque", "catchbox", "tempbox"):
         n = {"t": kind, "c": seq}
         if kind == "deque":
@@ -286,14 +288,12 @@ def wrap(g, rng, inner, kind):
         n = {"t": "chainmap", "c": [{"t": "dict", "c": [[G.leaf_ir(i), v]]} for i, v in enumerate(seq)]}
     elif kind == "slice":
         n = {"t": "slice", "c": (seq + [{"t": "none"}, {"t": "none"}])[:3]}
-        if inner not in n["c"]:
-            n["c"][0] = inner
     else:
         mk = kind[1:]
         if mk == "Dict" and len(seq) % 2:
             seq.append(G.leaf_ir(0))
         n = {"t": "mseq", "kind": mk, "c": seq}
-    return n
+    return n, inner
 
 
 def gen_spine(g, rng, levels):
@@ -302,20 +302,18 @@ def gen_spine(g, rng, levels):
     boxes, wrappers = [], []
 
     def mk(level):
-        kids = [g.node(g.max_depth - 1, False, "mut") for _ in range(rng.randint(0, 3))]
+        kids = [g.node(g.max_depth - 1, False, "mut") for _ in range(rng.randint(0, 2))]
         if level < levels - 1:
-            inner = mk(level + 1)
-            w = wrap(g, rng, inner, rng.choice(WRAPS))
+            w, inner = wrap(g, rng, lambda: mk(level + 1), rng.choice(WRAPS))
             if w is not inner:
                 wrappers.append(g.label(w))
-            kids.insert(rng.randint(0, len(kids)), w)
+            kids.append(w)
+        kids += [g.node(g.max_depth - 1, False, "mut") for _ in range(rng.randint(0, 1))]
         box = {"t": "failbox", "c": kids, "k": None}
         boxes.append((g.label(box), len(kids)))
         return box
-    root = mk(0)
+    top, root = wrap(g, rng, lambda: mk(0), rng.choice(WRAPS))
     boxes.reverse()          # level 0 first
-    outer = rng.choice(WRAPS)
-    top = wrap(g, rng, root, outer)
     if top is not root:
         wrappers.append(g.label(top))
     return top, boxes, wrappers
@@ -448,7 +446,7 @@ def outcome(hy, v, mon=None):
 
 
 def fresh_eval(arg):
-    """In a fresh interpreter: do everything the history did *except* its
+    """In a brand-new interpreter: do everything the history did *except* its
     earlier hy.repr calls, then make the i-th call."""
     st = _setup()
     ops, i = arg["ops"], arg["i"]
@@ -457,6 +455,38 @@ def fresh_eval(arg):
     for j in range(i + 1):
         v = h.prepare(j)
     return outcome(st["hy"], v)
+
+
+class Pristine:
+    """The filter: the same object printed by a pristine instance of the
+    printer module (fresh `_registry`, fresh whatever-state-it-keeps)."""
+
+    def __init__(self, st):
+        import importlib.util
+        self.st = st
+        HR = st["HR"]
+        spec = importlib.util.find_spec(HR.__name__)
+        self.code = spec.loader.get_code(HR.__name__)
+        self.proto = {k: getattr(HR, k) for k in ("__name__", "__file__", "__package__", "__spec__",
+                                                  "__loader__") if hasattr(HR, k)}
+
+    def outcome(self, v):
+        import types
+        hy = self.st["hy"]
+        m = types.ModuleType(self.proto["__name__"])
+        m.__dict__.update(self.proto)
+        exec(self.code, m.__dict__)
+        m.hy_repr_register(FailBox, _print_fail)
+        m.hy_repr_register(CatchBox, _print_catch)
+        m.hy_repr_register(SelfBox, _print_self)
+        m.hy_repr_register(SelfBoxP, _print_self, placeholder="<SELF>")
+        m.hy_repr_register(TempBox, _print_temp)
+        saved = hy.repr
+        hy.repr = m.hy_repr
+        try:
+            return outcome(hy, v)
+        finally:
+            hy.repr = saved
 
 
 def secondary(st):
@@ -494,23 +524,23 @@ def run_case(case):
     st = _setup()
     if st["mon"] is None:
         st["mon"] = G.EntryMonitor("hy.core.hy_repr", "hy_repr", TOOL, "hv-c28")
-    if st["server"] is None:
-        st["server"] = G.FreshServer("checks.c28")
-    hy, mon, server = st["hy"], st["mon"], st["server"]
+    if "pristine" not in st:
+        try:
+            st["pristine"] = Pristine(st)
+            st["pristine"].outcome(1)
+        except Exception:
+            st["pristine"] = None
+            st["counts"]["reference_unavailable"] += 1
+    hy, mon, ref = st["hy"], st["mon"], st["pristine"]
     ops = case["ops"]
     st["ncases"] += 1
     idx = [i for i, op in enumerate(ops) if op["op"] == "repr"]
-    fresh = server.ask([{"ops": ops, "i": i} for i in idx])
-    for f in fresh:
-        if isinstance(f, dict):
-            raise RuntimeError("fresh process: " + str(f))
-    # cross-check the fork shortcut against a brand-new interpreter now and then
-    if st["ncases"] % 150 == 1 and idx:
-        j = idx[(st["ncases"] // 150) % len(idx)]
-        g = server.genuine({"ops": ops, "i": j})
-        st["counts"]["genuine_fresh_checked"] += 1
-        if g != fresh[idx.index(j)]:
-            st["counts"]["genuine_fresh_mismatch"] += 1
+    if ref is None:
+        return {"ok": None, "classes": ["reference-unavailable"], "events": 0}
+    # which entries are put to a brand-new process although the filter passes them
+    sample = set()
+    if st["ncases"] == 1 or st["ncases"] % 500 == 0:
+        sample.add(idx[-1] if st["ncases"] % 1000 else idx[len(idx) // 2])
 
     defs = {}
     for op in ops:
@@ -528,9 +558,10 @@ def run_case(case):
         if op["op"] != "repr":
             classes.append("op:setk")
             continue
-        got = outcome(hy, v, mon)
+        exp = ref.outcome(v)                 # filter (touches no state of the module under test)
+        n0 = mon.count
+        got = outcome(hy, v, mon)            # the call of the history
         sec = secondary(st)
-        exp = fresh[idx.index(i)]
         kind = op_kind(op["v"], defs)
         classes.append("op:" + kind)
         classes.append("outcome:" + (got[0] if got[0] == "ok" else got[1]))
@@ -542,6 +573,21 @@ def run_case(case):
         elif got[0] == "ok" and failed_at is not None:
             model_after |= kind == "model"
             cont_after |= kind == "container"
+        if got == exp and i not in sample:
+            continue
+        # verdict: a brand-new interpreter process makes this one call
+        fresh = G.fresh_process("checks.c28", {"ops": ops, "i": i})
+        if isinstance(fresh, dict):
+            raise RuntimeError("fresh process: " + str(fresh))
+        if got == exp:
+            st["counts"]["fresh_process_sampled"] += 1
+            if fresh != exp:
+                st["counts"]["filter_disagrees_with_fresh_process"] += 1
+        else:
+            st["counts"]["fresh_process_confirmations"] += 1
+            if fresh == got:
+                st["counts"]["filter_disagrees_with_fresh_process"] += 1
+        exp = fresh
         if got == exp:
             continue
         if got[0] == "ok" and exp[0] == "ok":
@@ -556,6 +602,11 @@ def run_case(case):
             classes.append("exc-type-differs")      # both fail: outside the statement
             continue
         break
+    if notes and len(st.setdefault("graveyard", [])) < 20000:
+        # ids were left behind (secondary monitor): keep this history's objects alive so that
+        # the ids are not reused by later cases and the violation is reported by the history
+        # that caused it.  (Never happens on a tree that cleans up.)
+        st["graveyard"].append(h)
     if case.get("kind") == "grid":
         classes.append("plan:raised" if failed_at is not None else "plan:not-raised")
         classes.append(f"plan:d{case['plan'][1]}")
